@@ -164,10 +164,24 @@ theorem c01_counterexample_for_unsigned :
     (Wit.firstCycle Wit.forUnsignedNegativeStep).1 = some (.fault .TypeMismatch .forUnsignedNegStep) := by
   decide +kernel
 
-/-- **Counterexample (undeclared FOR control variable).** -/
-theorem c01_counterexample_for_undeclared :
-    Wit.forUndeclaredControl.accepted = true ∧
+/-- **Regression fact (undeclared FOR control variable, fixed).**  `FOR zz := 1 TO 3` with `zz`
+undeclared is rejected ("undefined identifier"): the checker resolves the control variable.  Run
+anyway, the loop would fault with `UndefinedVariable` before its first iteration — which is why it
+must not be accepted. -/
+theorem c01_for_undeclared_now_rejected :
+    Wit.forUndeclaredControl.accepted = false ∧
     (Wit.firstCycle Wit.forUndeclaredControl).1 = some (.fault .UndefinedVariable .readName) := by
+  decide +kernel
+
+/-- **Regression fact (struct field spelled with another case, fixed).**  `p.X` names the field
+`x`: the program is inside the guard `Strict` (so `c01_progress_partial` and `c02_refines_partial`
+cover it), the cycle completes, and the value is stored under the declared spelling. -/
+theorem c01_struct_field_case_resolves :
+    Strict Wit.structFieldCase = true ∧
+    Wit.firstCycle Wit.structFieldCase =
+      (none, [("v", .i .int 10), ("p.x", .i .int 5), ("p.y", .i .dint 0)]) ∧
+    Spec.cycle Wit.structFieldCase 100 (Spec.initEnv Wit.structFieldCase) =
+      ([("v", .n 10), ("p.x", .n 5), ("p.y", .n 0)], none) := by
   decide +kernel
 
 /-- **Regression fact (ELSE branch of CASE, fixed in 22a8b8f).**  `IF d THEN` with `d : DINT`
